@@ -130,11 +130,11 @@ theorem C20_parse_injective (s s' : Str) (q : Query) (h : parse s = some q) (h' 
   rw [← print_of_parse s q h, ← print_of_parse s' q h']
 
 /-- Non-vacuity: a realistic query string with surrounding blanks. -/
-example : parse " qc/PHYSICS/flp001/tpc-raw/sub\n".toList
-    = some ⟨"qc".toList, 1, "flp001".toList, "tpc-raw/sub".toList⟩ := by decide
-example : parse "qc/physics/flp001/tpc-raw".toList = none := by decide
-example : parse "qc/PHYSICS/flp001".toList = none := by decide
-example : wf ⟨"qc".toList, 300, "any".toList, "a/b".toList⟩ = true := by decide
+example : parse [' ', 'q', 'c', '/', 'P', 'H', 'Y', 'S', 'I', 'C', 'S', '/', 'f', 'l', 'p', '0', '0', '1', '/', 't', 'p', 'c', '-', 'r', 'a', 'w', '/', 's', 'u', 'b', '\n']
+    = some ⟨['q', 'c'], 1, ['f', 'l', 'p', '0', '0', '1'], ['t', 'p', 'c', '-', 'r', 'a', 'w', '/', 's', 'u', 'b']⟩ := by decide
+example : parse ['q', 'c', '/', 'p', 'h', 'y', 's', 'i', 'c', 's', '/', 'f', 'l', 'p', '0', '0', '1', '/', 't', 'p', 'c', '-', 'r', 'a', 'w'] = none := by decide
+example : parse ['q', 'c', '/', 'P', 'H', 'Y', 'S', 'I', 'C', 'S', '/', 'f', 'l', 'p', '0', '0', '1'] = none := by decide
+example : wf ⟨['q', 'c'], 300, ['a', 'n', 'y'], ['a', '/', 'b']⟩ = true := by decide
 
 /-! ## payload -/
 
@@ -223,15 +223,15 @@ theorem C20_model_meets_spec_partial (t : List Leaf) (q : Query) (vars : List (S
 theorem C20_parse_meets_spec (s : Str) : parseOk s (modelFullObs s) = true := by
   unfold parseOk modelFullObs
   cases h : parse s with
-  | none => simp [h]
-  | some q => simp [h, parse_wf s q h, print_of_parse s q h, absRaw]
+  | none => simp
+  | some q => simp [parse_wf s q h, print_of_parse s q h, absRaw]
 
 /-- Non-vacuity of the partial theorems: a tree where only ANY/any exists, a well-formed query, a templated entry. -/
 example :
-    let t : List Leaf := [⟨["o2".toList, "components".toList, "qc".toList, "ANY".toList, "any".toList, "e".toList],
-                           some "host={{ host }}".toList⟩]
-    let q : Query := ⟨"qc".toList, 1, "flp001".toList, "e".toList⟩
-    let vars := [("host".toList, "flp001".toList)]
-    wf q = true ∧ resolve (yamlExists t) q = some ⟨"qc".toList, 300, "any".toList, "e".toList⟩ ∧
-    valuesEscapeFree t ⟨"qc".toList, 300, "any".toList, "e".toList⟩ vars = true ∧
-    processComponent t ⟨"qc".toList, 300, "any".toList, "e".toList⟩ vars = .ok "host=flp001".toList := by decide
+    let t : List Leaf := [⟨[['o', '2'], ['c', 'o', 'm', 'p', 'o', 'n', 'e', 'n', 't', 's'], ['q', 'c'], ['A', 'N', 'Y'], ['a', 'n', 'y'], ['e']],
+                           some ['h', 'o', 's', 't', '=', '{', '{', ' ', 'h', 'o', 's', 't', ' ', '}', '}']⟩]
+    let q : Query := ⟨['q', 'c'], 1, ['f', 'l', 'p', '0', '0', '1'], ['e']⟩
+    let vars := [(['h', 'o', 's', 't'], ['f', 'l', 'p', '0', '0', '1'])]
+    wf q = true ∧ resolve (yamlExists t) q = some ⟨['q', 'c'], 300, ['a', 'n', 'y'], ['e']⟩ ∧
+    valuesEscapeFree t ⟨['q', 'c'], 300, ['a', 'n', 'y'], ['e']⟩ vars = true ∧
+    processComponent t ⟨['q', 'c'], 300, ['a', 'n', 'y'], ['e']⟩ vars = .ok ['h', 'o', 's', 't', '=', 'f', 'l', 'p', '0', '0', '1'] := by decide
